@@ -127,6 +127,17 @@ Definition acts_as_mov (o : opcode) (c : Z) : Prop :=
     forall y, 0 <= y < 2 ^ 64 ->
       exists v, int_val o [mask ks y; mask ks c] = Some v /\ mask kd v = mask kd y.
 
+(* ---- 3b. strength reduction by an immediate power of two (not in the pinned tree; a rule of this shape is
+   picked up by tools/tr_c04_shortcuts.py into gen.C04Shortcuts.strength_pow2):
+   [insn x, y, 2^n] with 2^n a signed 64-bit immediate > 1 (1 <= n <= 62)  =>  [insn' x, y, n] *)
+Definition strength_ok (p : opcode * opcode) : bool :=
+  match p with (MUL, LSH) | (UDIV, URSH) => true | _ => false end.
+
+Definition acts_as_shift (o o' : opcode) : Prop :=
+  ovf_op o = false /\ ovf_op o' = false /\
+  forall y n, 0 <= y < 2 ^ 64 -> 1 <= n <= 62 ->
+    int_val o [y; 2 ^ n] <> None /\ int_val o [y; 2 ^ n] = int_val o' [y; n].
+
 (* ---- 4. return merging (make_one_ret, mir.c ~3542-3597) ---------------------------------------------- *)
 
 (* the extension insn put before the single ret for a narrow result type, with its source kind *)
